@@ -128,8 +128,85 @@ def run(chk):
         eq('R05.3', f'l={l}: volumetric rate * 4 pi r^2 == (21/2) G M^2 R^5 n e^2/a^6 * [4 pi G/((2l+1)R)] H_mu Im(mu)', val * 4 * pi * r * r, ref, mh.where(fh))
     chk.ob('R05.3', 'only negative values are clamped (mask assignment to 0)', len(skipped) >= 1 and all('< 0' in s and s.rstrip().endswith('= 0.0') for s in skipped),
            f'mask statements: {skipped}', mh.where(fh), method='AST pattern')
+    energy_theorem(chk, repo, it, m)
+    chk.floor('R05.5', 9)
     from .common import inplace_lint
     inplace_lint(chk, repo, 'R05.4', ['TidalPy/radial_solver/sensitivity.py', 'TidalPy/tides/multilayer/heating.py'])
     chk.floor('R05.4', 2)
     chk.floor('R05.1', 24); chk.floor('R05.2', 4); chk.floor('R05.3', 3)
     chk.assume('r > 0 at every node; moduli complex; the world radius is the last element of the radius array')
+
+
+# ---------------------------------------------------------------------------------------------- R05.5 the energy theorem at formula level
+def energy_theorem(chk, repo, it, m):
+    """With  J(r) = r^2 Im[ conj(y1) y2 + l(l+1) conj(y3) y4 + conj(y5) y6 / (4 pi G) ]  (the energy flux through the sphere of radius r):
+        (a) dJ/dr == Im(mu) H_mu + Im(K) H_K   for every solution of the solver's own equations (the repository's ODE classes and the legacy kernels), with
+            H_mu, H_K the repository's sensitivity functions evaluated with the exact dy1/dr of those equations;
+        (b) J(R) == -(2l+1) R / (4 pi G) Im k   under the repository's tidal surface condition and Love-number extraction;
+        (c) J is continuous across solid/solid and solid/liquid interfaces (by C02's continuity conditions: y1, y2, y5, y6 continuous, y4 = 0 on the solid side).
+    Integrating (a) from the centre (J -> 0 for regular solutions) to R and using (b), (c) gives the property's identity
+        -Im k_l = 4 pi G / ((2l+1) R) * integral (H_mu Im mu + H_K Im K) dr .
+    Everything is extracted from the repository; no transcription of TB05 or TS72 enters."""
+    from . import solver_model as SM
+    from . import legacy_solver as LS
+    from ..oracles import ts72
+    d = X.Decider(seed=chk.seed + 41, k=2 if chk.tier == 'quick' else 6)
+    mo = repo.by_path('TidalPy/RadialSolver/derivatives/odes.pyx')
+    fs = m.defs['sensitivity_to_shear']; fb = m.defs['sensitivity_to_bulk']
+
+    def im_conj(u, v): return X.fn('imag', X.fn('conj', u) * v)
+    systems = []
+    for lv in ((2, 3) if chk.tier == 'quick' else (2, 3, 4, 7)):
+        P = SM.params(l=lv)
+        P['K'] = X.atom('Kc', 'complex')
+        for static in (False, True):
+            cname = SM.CLASSES[('solid', static, False)]
+            dy, y, fnode = SM.extract_rhs(repo, mo, cname, P, 6)
+            systems.append((f'{cname} (l={lv})', dy, y, P, lv, mo.where(fnode)))
+            # legacy kernel of the same assumption set
+            mk = repo.by_path('TidalPy/radial_solver/numerical/derivatives/' + LS.DERIV_FILES[(static, False)])
+            fk = mk.defs.get(LS.FUNCS['solid'])
+            if isinstance(fk, ast.FunctionDef):
+                Pl = dict(P)
+                Gl = X.atom('G_newton', 'pos'); Pl['fpG'] = 4 * X.lift(Interp(repo).global_name(mk, 'pi')) * Gl
+                dyl, yl = LS.legacy_rhs(repo, Interp(repo), mk, fk, Pl, 6, Gl)
+                systems.append((f'legacy {LS.DERIV_FILES[(static, False)][:-3]}.{LS.FUNCS["solid"]} (l={lv})', dyl, yl, Pl, lv, mk.where(fk)))
+    for name, dy, y, P, lv, where in systems:
+        r = P['r']; L = lv * (lv + 1)
+        terms = [(0, 1, r * r), (2, 3, r * r * L), (4, 5, r * r / P['fpG'])]
+        dJ = X.ZERO
+        for (i, j, pref) in terms:
+            dJ = dJ + X.diff(pref, 'r') * im_conj(y[i], y[j]) + pref * (im_conj(dy[i], y[j]) + im_conj(y[i], dy[j]))
+        # repository's kernels on a three-node grid whose y1 is linear with slope D = (exact) dy1/dr, so that the stencil returns D (R05.2)
+        h0 = X.atom('h_minus', 'pos'); h1 = X.atom('h_plus', 'pos')
+        D = dy[0]
+        rr = [r - h0, r, r + h1]
+        rad = Arr('r', default=lambda k: rr[k], shape=(3,))
+
+        def ydef(k, y=y, D=D, h0=h0, h1=h1):
+            comp, node = k
+            if comp == 0:
+                return [y[0] - D * h0, y[0], y[0] + D * h1][node]
+            return y[comp] if node == 1 else X.atom(f'other_y{comp + 1}_{node}', 'complex')
+        ya = Arr('y', default=ydef, shape=(6, 3))
+        mu_a = Arr('mu', default=lambda k: P['mu'] if k == 1 else X.atom(f'mu_other{k}', 'complex'), shape=(3,))
+        K_a = Arr('K', default=lambda k: P['K'] if k == 1 else X.atom(f'K_other{k}', 'complex'), shape=(3,))
+        Hmu = it.call(m, fs, [ya, rad, mu_a, K_a, lv]).get(1)
+        HK = it.call(m, fb, [ya, rad, mu_a, K_a, lv]).get(1)
+        rhs = X.fn('imag', P['mu']) * Hmu + X.fn('imag', P['K']) * HK
+        ok = d.equal(dJ, rhs)
+        chk.ob('R05.5', f'{name}: d/dr of the energy flux J == Im(mu) sensitivity_to_shear + Im(K) sensitivity_to_bulk for every solution of these equations', ok,
+               '' if ok else 'the local dissipation kernels do not integrate to the flux of the implemented equations: ' + d.describe(dJ, rhs), where, key=f'R05.5|{name}', method='symbolic differentiation along the ODE + GF(p^2) PIT')
+    # (b) surface value
+    l = X.atom('l', 'pos'); R = X.atom('R_planet', 'pos'); fpG = X.atom('fourpiG', 'pos')
+    y5 = X.atom('y5_surface', 'complex'); y1 = X.atom('y1_surface', 'complex'); y3 = X.atom('y3_surface', 'complex')
+    ml = repo.by_path('TidalPy/RadialSolver/love.pyx')
+    out = Arr('love')
+    ys = [y1, X.ZERO, y3, X.ZERO, y5, (2 * l + 1) / R]      # tidal surface condition (C02 R02.2): y2 = y4 = 0, y6 = (2l+1)/R
+    Interp(repo).call(ml, ml.defs['find_love_cf'], [out, Arr('s', default=lambda k: ys[k]), X.atom('g_surf', 'pos')])
+    k_love = out.store[0]
+    JR = R * R * (im_conj(ys[0], ys[1]) + l * (l + 1) * im_conj(ys[2], ys[3]) + im_conj(ys[4], ys[5]) / fpG)
+    ok = d.equal(JR, -(2 * l + 1) * R / fpG * X.fn('imag', k_love))
+    chk.ob('R05.5', 'surface value of the flux under the tidal surface condition: J(R) == -(2l+1) R / (4 pi G) * Im k, k as find_love_cf extracts it', ok, '' if ok else d.describe(JR, -(2 * l + 1) * R / fpG * X.fn('imag', k_love)),
+           ml.where(ml.defs['find_love_cf']), key='R05.5|surface', method='GF(p^2) PIT')
+    chk.assume('R05.5: layers are solid (or the flux is carried by y1, y2, y5, y6 through dynamic liquid layers, C02); density, gravity and frequency real; the solution is regular at the centre (J(0) = 0)')
